@@ -269,6 +269,9 @@ pub struct RawSplit<'a> {
     pub ty: &'a str,
     pub ns: Option<&'a str>,
     pub sub: Option<&'a str>,
+    pub name: &'a str,
+    pub ver: Option<&'a str>,
+    pub query: Option<&'a str>,
 }
 pub fn raw_split(s: &str) -> Option<RawSplit<'_>> {
     let s = s.strip_prefix("pkg:")?;
@@ -277,18 +280,35 @@ pub fn raw_split(s: &str) -> Option<RawSplit<'_>> {
         Some(i) => (&s[..i], Some(&s[i + 1..])),
         None => (s, None),
     };
-    let s = match s.rfind('?') {
-        Some(i) => &s[..i],
-        None => s,
+    let (s, query) = match s.rfind('?') {
+        Some(i) => (&s[..i], Some(&s[i + 1..])),
+        None => (s, None),
     };
     let i = s.find('/')?;
     let (ty, rest) = (&s[..i], &s[i + 1..]);
-    let rest = match rest.rfind('@') {
-        Some(i) => &rest[..i],
-        None => rest,
+    let (rest, ver) = match rest.rfind('@') {
+        Some(i) => (&rest[..i], Some(&rest[i + 1..])),
+        None => (rest, None),
     };
-    let ns = rest.rfind('/').map(|i| &rest[..i]);
-    Some(RawSplit { ty, ns, sub })
+    let (ns, name) = match rest.rfind('/') {
+        Some(i) => (Some(&rest[..i]), &rest[i + 1..]),
+        None => (None, rest),
+    };
+    Some(RawSplit { ty, ns, sub, name, ver, query })
+}
+/// reference reading of the raw query: lower-cased keys, decoded non-empty values (None when an item has no '=' or a value is not UTF-8)
+pub fn ref_quals(query: Option<&str>) -> Option<BTreeMap<String, String>> {
+    let mut m = BTreeMap::new();
+    if let Some(q) = query {
+        for item in q.split('&') {
+            let (k, v) = item.split_once('=')?;
+            let v = String::from_utf8(pct_decode(v)).ok()?;
+            if !v.is_empty() {
+                m.insert(k.to_ascii_lowercase(), v);
+            }
+        }
+    }
+    Some(m)
 }
 fn pct_decode(s: &str) -> Vec<u8> {
     let b = s.as_bytes();
@@ -367,6 +387,26 @@ fn parse_oracles<K: Kind>(ck: &mut Ck, a: &[&str], made: &Made<K::T>) {
         for (k, _) in p.qualifiers().iter() {
             if !valid_key(k.as_str()) {
                 ck.fail("C05", format!("{:?} accepted although the qualifier key {:?} is invalid", s, k.as_str()));
+            }
+        }
+        if let Some(raw) = raw_split(&s) {
+            // right-to-left splitting done independently: the name is what stands after the last '/' of the part before the last '@'
+            if raw.name.is_empty() {
+                ck.fail("C05", format!("{:?} accepted although it has no name (MissingRequiredField(Name))", s));
+            }
+            if a[1] != "t" {
+                let dn = String::from_utf8_lossy(&pct_decode(raw.name)).to_string();
+                let dv = String::from_utf8_lossy(&pct_decode(raw.ver.unwrap_or(""))).to_string();
+                if p.name() != dn || p.version().unwrap_or("") != dv {
+                    ck.fail("C02", format!("{:?}: name/version {:?}/{:?}, the pieces between the separators decode to {:?}/{:?}", s, p.name(), p.version(), dn, dv));
+                }
+                if let Some(want) = ref_quals(raw.query) {
+                    let got: BTreeMap<String, String> = p.qualifiers().iter().filter(|(k, _)| k.as_str() != "checksum").map(|(k, v)| (k.as_str().to_string(), v.to_string())).collect();
+                    let want: BTreeMap<String, String> = want.into_iter().filter(|(k, _)| k != "checksum").collect();
+                    if got != want {
+                        ck.fail("C02", format!("{:?}: qualifiers {:?}, the items of the query decode to {:?}", s, got, want));
+                    }
+                }
             }
         }
     }
@@ -1250,6 +1290,16 @@ fn h_oracle(ck: &mut Ck, a: &[&str]) {
         }
         if main.starts_with("O ") {
             ck.req("C14", nf == 1 && nh == 1, "a PURL was produced without exactly one conversion and one hook call");
+        }
+        // a hook that leaves the qualifiers alone: the PURL reports exactly the non-empty qualifiers of the string (the generic clean-up removes empty values only)
+        if main.starts_with("O ") && !hook.chars().any(|c| "eqmcbxo".contains(c)) {
+            if let (Some(raw), Some(f)) = (raw_split(&s), main_fields(main)) {
+                if let Some(want) = ref_quals(raw.query) {
+                    let want: Vec<String> = want.iter().filter(|(k, _)| k.as_str() != "checksum").map(|(k, v)| format!("{}={}", h(k), h(v))).collect();
+                    let got: Vec<String> = if f[4] == "-" { vec![] } else { f[4].split(';').filter(|kv| !kv.starts_with(&format!("{}=", h("checksum")))).map(|x| x.to_string()).collect() };
+                    ck.req("C14", got == want, "qualifiers of the string are not what the PURL reports although the hook did not touch them");
+                }
+            }
         }
     } else {
         ck.req("C14", calls.len() == 1 && calls[0].starts_with("H:") || main == "QE", "build() did not invoke the hook exactly once");
